@@ -4,6 +4,7 @@ package meta_leaseset
 import (
 	"encoding/binary"
 	"sort"
+	"strings"
 	"time"
 
 	common "github.com/go-i2p/common/data"
@@ -204,6 +205,7 @@ func parseOfflineSignature(mls *MetaLeaseSet, data []byte) ([]byte, error) {
 // Returns remaining data after parsing or error if parsing fails.
 func parseOptionsMapping(mls *MetaLeaseSet, data []byte) ([]byte, error) {
 	mapping, rem, errs := common.ReadMapping(data)
+	errs = fatalMappingErrors(errs)
 	if len(errs) > 0 {
 		err := oops.
 			Code("options_parse_failed").
@@ -218,6 +220,19 @@ func parseOptionsMapping(mls *MetaLeaseSet, data []byte) ([]byte, error) {
 	log.Debug("Parsed options mapping")
 
 	return rem, nil
+}
+
+// fatalMappingErrors drops the "data exists beyond length of mapping" warning,
+// which ReadMapping always emits for a mapping embedded in a larger structure.
+func fatalMappingErrors(errs []error) []error {
+	var fatal []error
+	for _, e := range errs {
+		if strings.Contains(e.Error(), "data exists beyond length of mapping") {
+			continue
+		}
+		fatal = append(fatal, e)
+	}
+	return fatal
 }
 
 // parseEntries parses the MetaLeaseSet entries from the data.
@@ -345,6 +360,7 @@ func parseEntryFixedFields(entry *MetaLeaseSetEntry, data []byte) []byte {
 // parseEntryProperties reads the properties mapping for a MetaLeaseSet entry.
 func parseEntryProperties(entry *MetaLeaseSetEntry, entryIndex int, data []byte) ([]byte, error) {
 	properties, rem, errs := common.ReadMapping(data)
+	errs = fatalMappingErrors(errs)
 	if len(errs) > 0 {
 		err := oops.
 			Code("entry_properties_parse_failed").
